@@ -20,6 +20,7 @@ mod term;
 mod vecs;
 mod vconv;
 mod spatial;
+mod geom;
 
 /// an angle value as a list of tokens (shared by the drivers)
 pub fn xform_token(a: q::Q) -> serde_json::Value { xform::token_of(a) }
@@ -45,6 +46,8 @@ fn main() {
         ("drive", "bezier") => bezier::drive_bezier(rest),
         ("drive", "bezext") => bezier::drive_bezext(rest),
         ("drive", "bezlen") => bezier::drive_bezlen(rest),
+        ("drive", "boxes") => geom::drive_boxes(rest),
+        ("drive", "shapes") => geom::drive_shapes(rest),
         ("drive", "spatial") => spatial::drive_spatial(rest),
         ("drive", "vconv") => vconv::drive_vconv(rest),
         ("drive", "vecops") => vecs::drive_vecops(rest),
